@@ -146,6 +146,12 @@ def specs():
         {0: ("pin", i)}, exprcall="digitalRead")
     add("analog_read", "Core.analog_read", "zz = analog_read({args})", "VarAssign", {"pin": "11"},
         {0: ("pin", i)}, exprcall="analogRead")
+    # pins given by NAME (a string in Python, the bare Arduino constant in the sketch), positionally or by keyword
+    add("analog_read(name)", "Core.analog_read", "zz = analog_read({args})", "VarAssign", {"pin": '"A0"'}, {0: ("pin", "rawpin")}, exprcall="analogRead")
+    add("digital_read(name)", "Core.digital_read", "zz = digital_read({args})", "VarAssign", {"pin": '"A3"'}, {0: ("pin", "rawpin")}, exprcall="digitalRead")
+    add("digital_write(name)", "Core.digital_write", "digital_write({args})", "ExprStmt", {"pin": '"A1"', "value": "22"}, {0: ("pin", "rawpin"), 1: ("value", i)}, exprcall="digitalWrite")
+    add("pin_mode(name)", "Core.pin_mode", "pin_mode({args})", "ExprStmt", {"pin": '"A2"', "mode": "22"}, {0: ("pin", "rawpin"), 1: ("mode", i)}, exprcall="pinMode")
+    add("analog_write(name)", "Core.analog_write", "analog_write({args})", "ExprStmt", {"pin": '"A4"', "value": "22"}, {0: ("pin", "rawpin"), 1: ("value", i)}, exprcall="analogWrite")
     return S
 
 
@@ -405,6 +411,12 @@ def main() -> int:
                 m = re.search(re.escape(sp["exprcall"]) + r"\((.*)\)", node.expr)
                 got_args = [x.strip() for x in m.group(1).split(",")] if m else []
                 for idx, (param, conv) in sp["fields"].items():
+                    if conv == "rawpin":
+                        # compared as emitted text: the sketch must name the pin constant, not a C string
+                        exp, got = str(bound.arguments[param]), (got_args[idx] if idx < len(got_args) else None)
+                        if exp != got:
+                            mism.append((param, exp, got))
+                        continue
                     exp = conv_expected(conv, bound.arguments[param])
                     got = norm_node_value(got_args[idx]) if idx < len(got_args) else None
                     if not same(exp, got, conv):
